@@ -30,7 +30,7 @@ def hexDigit (c : Char) : Nat :=
   else if 'A' ≤ c && c ≤ 'F' then c.toNat - 'A'.toNat + 10 else 0
 
 /-- (kind, properties, name, detail); kind "stat" carries a counter name in `name` -/
-def check (j : Json) (specDevs : Unit → Nat) : List (String × String × String × String) := Id.run do
+def check (j : Json) (specRun : Unit → Nat × Nat) : List (String × String × String × String) := Id.run do
   let res := J.get j "res"
   if !J.has res "mem" then return []
   let outcome := J.strOf res "outcome"
@@ -48,9 +48,17 @@ def check (j : Json) (specDevs : Unit → Nat) : List (String × String × Strin
   if biggest ≥ 1048576 then out := out ++ [("stat", "", "sit.c17.memory_of_a_mebibyte_or_more", "")]
   if cost > used then
     -- only now is the specification run of the model needed (deviation points met, as a bit set)
-    let zeroLen := byConstruction || (specDevs () &&& (1 <<< 3) != 0)
-    out := out ++ [("monitor", "C17", "memory_is_paid_for",
-      s!"final memory sizes (bytes per frame) {mem} cost {cost} gas by the EVM's memory formula; the execution consumed {used} (gas={gas}, gasLeft={gasLeft}, outcome={outcome}) zero_length_growth={if zeroLen then "yes" else "no"} [{tag}] code={J.strOf j "code"} input={J.strOf j "input"}")]
+    let (devs, status) := specRun ()
+    let zeroLen := byConstruction || (devs &&& (1 <<< 3) != 0)
+    -- the specification run stopped outside the interpreter model (a native address, a destroyed account's reuse, nesting beyond the
+    -- model's depth) before it could say whether a zero-length operand was met: the case cannot be told apart from the recorded defect
+    -- by this monitor; it is counted and sampled, not reported (the same way of getting memory for nothing shows in the programs the
+    -- model does follow, which is nearly all of them: see the counters)
+    if !zeroLen && status == 2 then
+      out := out ++ [("stat", "", "sit.c17.unpaid_memory_in_a_program_outside_the_model", "")]
+    else
+      out := out ++ [("monitor", "C17", "memory_is_paid_for",
+        s!"final memory sizes (bytes per frame) {mem} cost {cost} gas by the EVM's memory formula; the execution consumed {used} (gas={gas}, gasLeft={gasLeft}, outcome={outcome}) zero_length_growth={if zeroLen then "yes" else "no"} [{tag}] code={J.strOf j "code"} input={J.strOf j "input"}")]
   else if byConstruction then out := out ++ [("stat", "", "sit.c17.zero_length_operand_but_memory_paid", "")]
   -- the program's own MSIZE (profile "zerolen": the last 32 bytes returned) against the harness's reading of the top frame
   if profile == "zerolen" && outcome == "ok" && (note.splitOn " msize_ret").length > 1 then
